@@ -190,6 +190,8 @@ def _edit(file: M.File) -> None:
 
 
 def _new_text(eol: str) -> str:
+    if eol == 'e':          # a new entry whose model prints nothing: the (empty) file must still be created
+        return ''
     e = '\r\n' if eol == 'c' else '\n'
     return f'; new file{e}2000-01-01 open Assets:New{e}'
 
@@ -649,7 +651,7 @@ def bodies(files: list, api: str, level: str) -> list:
     if nomatch:
         return [([], None, None)]
     subsets = [list(c) for n in range(len(visited) + 1) for c in itertools.combinations(visited, n)]
-    structs: list = [['del', v] for v in visited] + [['add', 'new.bean', 'l'], ['add', 'newsub/n.bean', 'l']] + \
+    structs: list = [['del', v] for v in visited] + [['add', 'new.bean', 'l'], ['add', 'newsub/n.bean', 'l'], ['add', 'empty.bean', 'e']] + \
         [['respell', v] for v in (visited if level == 'full' else visited[-1:])]
     if level == 'full':
         structs += [['add', 'new.bean', 'c']]
